@@ -9,6 +9,8 @@ STD_ENUMS = {
     'Cow': ['Borrowed', 'Owned'],
     'ControlFlow': ['Continue', 'Break'],
     'Entry': ['Vacant', 'Occupied'],
+    'LocalResult': ['Single', 'Ambiguous', 'None'],      # chrono 0.4.x (MappedLocalTime)
+    'MappedLocalTime': ['Single', 'Ambiguous', 'None'],
 }
 # std::cmp::Ordering has explicit discriminants -1, 0, 1
 ORDERING = {'Less': -1, 'Equal': 0, 'Greater': 1}
